@@ -20,6 +20,7 @@ type oracleInfo struct {
 	batch    int // calls executed in batch passes
 	iso      int // calls executed alone in a fresh process
 	dropped  int // calls dropped for exceeding the step bound
+	excluded map[int]string
 	viol     *proto.Record
 }
 
@@ -123,113 +124,149 @@ func buildOracle(b builds, cfg tierCfg) oracleInfo {
 		fatal("%v", err)
 	}
 	n := len(oi.corpus.Calls)
-	// passes, in parallel
-	var canon, rev, shuf, inst proto.OracleOut
-	var wg sync.WaitGroup
-	wg.Add(4)
-	go func() { defer wg.Done(); canon = oracleRun(b.ref, cfg.procWall, corpusPath, "canonical", nil) }()
-	go func() { defer wg.Done(); rev = oracleRun(b.ref, cfg.procWall, corpusPath, "reverse", nil) }()
-	go func() { defer wg.Done(); shuf = oracleRun(b.ref, cfg.procWall, corpusPath, "shuffle", nil) }()
-	go func() { defer wg.Done(); inst = oracleRun(b.plain, cfg.procWall, corpusPath, "canonical", nil) }()
-	// isolated: one fresh process per call
-	var isoIDs []int
+	callStr := func(id int) string {
+		c := oi.corpus.Calls[id]
+		return fmt.Sprintf("%s(%q, %q)", c.Fn, c.Expr, c.List)
+	}
+
+	// ---- isolated executions: one call alone in a fresh process ----
+	var isoMu sync.Mutex
+	iso := map[int]proto.OracleOut{}
+	excluded := map[int]string{} // calls that crash or hang even alone: input-only, outside C13
+	sem := make(chan struct{}, workers)
+	isoOf := func(ids []int) {
+		var iw sync.WaitGroup
+		for _, id := range ids {
+			isoMu.Lock()
+			_, have := iso[id]
+			isoMu.Unlock()
+			if have {
+				continue
+			}
+			iw.Add(1)
+			sem <- struct{}{}
+			go func(id int) {
+				defer iw.Done()
+				defer func() { <-sem }()
+				o := oracleRun(b.ref, cfg.procWall, corpusPath, "canonical", []int{id})
+				isoMu.Lock()
+				iso[id] = o
+				if o.Crash != "" {
+					excluded[id] = "kills the process even alone: " + firstLine(o.Crash)
+				} else if o.Hung >= 0 || len(o.Outcomes) == 0 {
+					excluded[id] = "does not return even alone"
+				}
+				isoMu.Unlock()
+			}(id)
+		}
+		iw.Wait()
+	}
+	all := make([]int, n)
+	for i := range all {
+		all[i] = i
+	}
+	var sample []int
 	if cfg.isoSample < 0 || cfg.isoSample >= n {
-		for i := 0; i < n; i++ {
-			isoIDs = append(isoIDs, i)
-		}
+		sample = all
 	} else {
-		// seeded sample without replacement
-		perm := make([]int, n)
-		for i := range perm {
-			perm[i] = i
-		}
+		perm := append([]int{}, all...)
 		s := seed*0x9e3779b97f4a7c15 + 77
 		for i := n - 1; i > 0; i-- {
 			s = s*6364136223846793005 + 1442695040888963407
 			j := int((s >> 33) % uint64(i+1))
 			perm[i], perm[j] = perm[j], perm[i]
 		}
-		isoIDs = perm[:cfg.isoSample]
-		sort.Ints(isoIDs)
+		sample = perm[:cfg.isoSample]
+		sort.Ints(sample)
 	}
-	iso := make([]string, n)
-	var isoBad []proto.OracleOut
-	var isoMu sync.Mutex
-	sem := make(chan struct{}, workers)
-	var iw sync.WaitGroup
-	for _, id := range isoIDs {
-		iw.Add(1)
-		sem <- struct{}{}
-		go func(id int) {
-			defer iw.Done()
-			defer func() { <-sem }()
-			o := oracleRun(b.ref, cfg.procWall, corpusPath, "canonical", []int{id})
-			if o.Crash != "" {
-				cc := oi.corpus.Calls[id]
-				fatal("%s(%q,%q) kills the process even when it is the only call of a fresh process (%s): an input-only crash is not a C13 matter, and the corpus cannot contain it",
-					cc.Fn, cc.Expr, cc.List, firstLine(o.Crash))
-			}
-			if len(o.Outcomes) == 0 {
-				fatal("isolated oracle call %d produced nothing", id)
-			}
-			iso[id] = o.Outcomes[0]
-			if o.Output != 0 || len(o.ArgMut) > 0 || o.Hung >= 0 {
-				isoMu.Lock()
-				isoBad = append(isoBad, o)
-				isoMu.Unlock()
-			}
-		}(id)
-	}
-	wg.Wait()
-	iw.Wait()
-	oi.batch = len(canon.IDs) + len(rev.IDs) + len(shuf.IDs)
-	oi.iso = len(isoIDs)
+	isoOf(sample)
 
-	// reference table: the isolated (cold, alone) outcome where sampled, else canonical
-	exp := make([]string, n)
-	for i, id := range canon.IDs {
-		exp[id] = canon.Outcomes[i]
+	// ---- batch passes over every call that is not excluded ----
+	var canon, rev, shuf, inst proto.OracleOut
+	for attempt := 0; ; attempt++ {
+		var ids []int
+		for _, id := range all {
+			if _, ex := excluded[id]; !ex {
+				ids = append(ids, id)
+			}
+		}
+		if len(ids) == 0 {
+			fatal("every corpus call crashes or hangs when made alone")
+		}
+		var wg sync.WaitGroup
+		wg.Add(4)
+		go func() { defer wg.Done(); canon = oracleRun(b.ref, cfg.procWall, corpusPath, "canonical", ids) }()
+		go func() { defer wg.Done(); rev = oracleRun(b.ref, cfg.procWall, corpusPath, "reverse", ids) }()
+		go func() { defer wg.Done(); shuf = oracleRun(b.ref, cfg.procWall, corpusPath, "shuffle", ids) }()
+		go func() { defer wg.Done(); inst = oracleRun(b.plain, cfg.procWall, corpusPath, "canonical", ids) }()
+		wg.Wait()
+		again := false
+		for _, o := range []proto.OracleOut{canon, rev, shuf, inst} {
+			at := -1
+			if o.Crash != "" {
+				at = o.CrashAt
+			} else if o.Hung >= 0 {
+				at = o.Hung
+			}
+			if at >= 0 && at < len(o.IDs) {
+				x := o.IDs[at]
+				isoOf([]int{x})
+				if _, ex := excluded[x]; ex {
+					again = true
+				}
+			}
+		}
+		if !again || attempt >= 3 {
+			break
+		}
+		// some call dies even alone: find all of them at once, drop them, run the passes again
+		isoOf(all)
 	}
+	oi.batch = len(canon.IDs) + len(rev.IDs) + len(shuf.IDs)
+	oi.excluded = excluded
+	if len(excluded) > 0 {
+		logf("%d corpus call(s) crash or hang even when made alone in a fresh process (input-only, not a C13 matter): removed from the corpus", len(excluded))
+	}
+
+	// ---- reference table: the isolated outcome where available, else canonical ----
 	ref := make([]string, n)
-	copy(ref, exp)
-	for _, id := range isoIDs {
-		ref[id] = iso[id]
+	rebuildRef := func() {
+		for i, id := range canon.IDs {
+			if i < len(canon.Outcomes) {
+				ref[id] = canon.Outcomes[i]
+			}
+		}
+		for id, o := range iso {
+			if _, ex := excluded[id]; !ex && len(o.Outcomes) > 0 {
+				ref[id] = o.Outcomes[0]
+			}
+		}
+		for id := range excluded {
+			ref[id] = ""
+		}
 	}
+	rebuildRef()
+
 	// every pass must agree with the reference: otherwise the result depends on history
 	check := func(o proto.OracleOut, build string) *proto.Record {
-		if o.Output != 0 {
-			r := seqRecord(&oi.corpus, o.IDs, len(o.IDs)-1, ref, "output_written", build)
-			r.Violations = []proto.Violation{{Class: "output_written", Detail: fmt.Sprintf("%d bytes on stdout/stderr during a sequential pass (%s order)", o.Output, o.Order)}}
-			return r
-		}
 		if o.Crash != "" {
 			cid := o.IDs[o.CrashAt]
-			cc := oi.corpus.Calls[cid]
-			alone := oracleRun(b.ref, cfg.procWall, corpusPath, "canonical", []int{cid})
-			if alone.Crash != "" || alone.Hung >= 0 {
-				fatal("%s(%q,%q) kills the process even when it is the only call of a fresh process (%s): an input-only crash is not a C13 matter, and the corpus cannot contain it",
-					cc.Fn, cc.Expr, cc.List, firstLine(alone.Crash))
-			}
-			ref[cid] = alone.Outcomes[0]
-			r := seqRecord(&oi.corpus, o.IDs, o.CrashAt, ref, "crash", "ref")
-			r.Violations = []proto.Violation{{Class: "crash", Task: 0, Op: o.CrashAt, Fn: cc.Fn,
-				Detail:  fmt.Sprintf("sequential pass (%s order): the process died in %s(%q, %q) as call #%d (the same call alone in a fresh process returns): %s", o.Order, cc.Fn, cc.Expr, cc.List, o.CrashAt, firstLine(o.Crash)),
+			r := seqRecord(&oi.corpus, o.IDs, o.CrashAt, ref, "crash", build)
+			r.Violations = []proto.Violation{{Class: "crash", Task: 0, Op: o.CrashAt, Fn: oi.corpus.Calls[cid].Fn,
+				Detail:  fmt.Sprintf("sequential pass (%s order): the process died in %s as call #%d (the same call alone in a fresh process returns): %s", o.Order, callStr(cid), o.CrashAt, firstLine(o.Crash)),
 				RaceLog: o.Crash}}
 			return r
 		}
 		if o.Hung >= 0 {
-			// reference for the call that hung: the same call alone in a fresh process
 			hid := o.IDs[o.Hung]
-			alone := oracleRun(b.ref, cfg.procWall, corpusPath, "canonical", []int{hid})
-			if alone.Hung >= 0 {
-				hc := oi.corpus.Calls[hid]
-				fatal("%s(%q,%q) does not return even when it is the only call of a fresh process: not a C13 matter, and the corpus cannot contain it", hc.Fn, hc.Expr, hc.List)
-			}
-			ref[hid] = alone.Outcomes[0]
 			r := seqRecord(&oi.corpus, o.IDs, o.Hung, ref, "deadlock", "plain")
-			c := oi.corpus.Calls[o.IDs[o.Hung]]
-			r.Violations = []proto.Violation{{Class: "deadlock", Task: 0, Op: o.Hung, Fn: c.Fn,
-				Detail: fmt.Sprintf("sequential pass (%s order): %s(%q, %q) as call #%d never returned (it returns when made alone)", o.Order, c.Fn, c.Expr, c.List, o.Hung)}}
+			r.Violations = []proto.Violation{{Class: "deadlock", Task: 0, Op: o.Hung, Fn: oi.corpus.Calls[hid].Fn,
+				Detail: fmt.Sprintf("sequential pass (%s order): %s as call #%d never returned (it returns when made alone)", o.Order, callStr(hid), o.Hung)}}
+			return r
+		}
+		if o.Output != 0 {
+			r := seqRecord(&oi.corpus, o.IDs, len(o.IDs)-1, ref, "output_written", build)
+			r.Violations = []proto.Violation{{Class: "output_written", Detail: fmt.Sprintf("%d bytes on stdout/stderr during a sequential pass (%s order)", o.Output, o.Order)}}
 			return r
 		}
 		if len(o.ArgMut) > 0 {
@@ -240,21 +277,32 @@ func buildOracle(b builds, cfg tierCfg) oracleInfo {
 		for i, id := range o.IDs {
 			if o.Outcomes[i] != ref[id] {
 				r := seqRecord(&oi.corpus, o.IDs, i, ref, "result_mismatch", build)
-				c := oi.corpus.Calls[id]
-				r.Violations = []proto.Violation{{Class: "result_mismatch", Task: 0, Op: i, Fn: c.Fn,
-					Detail:   fmt.Sprintf("sequential pass (%s order): %s(%q, %q) as call #%d differs from the same call made alone in a fresh process", o.Order, c.Fn, c.Expr, c.List, i),
+				r.Violations = []proto.Violation{{Class: "result_mismatch", Task: 0, Op: i, Fn: oi.corpus.Calls[id].Fn,
+					Detail:   fmt.Sprintf("sequential pass (%s order): %s as call #%d differs from the same call made alone in a fresh process", o.Order, callStr(id), i),
 					Expected: ref[id], Observed: o.Outcomes[i]}}
 				return r
 			}
 		}
 		return nil
 	}
-	sort.Slice(isoBad, func(i, j int) bool { return isoBad[i].IDs[0] < isoBad[j].IDs[0] })
 	firstViol := func() *proto.Record {
-		for _, o := range append(append([]proto.OracleOut{}, isoBad...), canon, rev, shuf) {
-			if len(isoBad) > 0 && o.Hung >= 0 && len(o.IDs) == 1 {
-				continue // hangs even alone: handled (fatal) when a pass reaches it
+		// a call that misbehaves even alone (output, argument mutation)
+		var ids []int
+		for id := range iso {
+			ids = append(ids, id)
+		}
+		sort.Ints(ids)
+		for _, id := range ids {
+			if _, ex := excluded[id]; ex {
+				continue
 			}
+			if o := iso[id]; o.Output != 0 || len(o.ArgMut) > 0 {
+				if r := check(o, "ref"); r != nil {
+					return r
+				}
+			}
+		}
+		for _, o := range []proto.OracleOut{canon, rev, shuf} {
 			if r := check(o, "ref"); r != nil {
 				return r
 			}
@@ -262,33 +310,12 @@ func buildOracle(b builds, cfg tierCfg) oracleInfo {
 		return nil
 	}
 	if r := firstViol(); r != nil {
-		if r.Class == "result_mismatch" && len(isoIDs) < n {
-			// the passes disagree: make the reference the isolated outcome of EVERY call
-			// (each alone in a fresh process) so that the record names the call whose
-			// result depends on history and carries history-free expectations
-			sampled := map[int]bool{}
-			for _, id := range isoIDs {
-				sampled[id] = true
-			}
-			for id := 0; id < n; id++ {
-				if sampled[id] {
-					continue
-				}
-				iw.Add(1)
-				sem <- struct{}{}
-				go func(id int) {
-					defer iw.Done()
-					defer func() { <-sem }()
-					o := oracleRun(b.ref, cfg.procWall, corpusPath, "canonical", []int{id})
-					if len(o.Outcomes) > 0 {
-						isoMu.Lock()
-						ref[id] = o.Outcomes[0]
-						isoMu.Unlock()
-					}
-				}(id)
-			}
-			iw.Wait()
-			oi.iso = n
+		if (r.Class == "result_mismatch" || r.Class == "crash" || r.Class == "deadlock") && len(iso) < n {
+			// the passes disagree: make the reference the isolated outcome of EVERY call so
+			// that the record names the call whose result depends on history and carries
+			// history-free expectations
+			isoOf(all)
+			rebuildRef()
 			if r2 := firstViol(); r2 != nil {
 				r = r2
 			}
@@ -297,31 +324,38 @@ func buildOracle(b builds, cfg tierCfg) oracleInfo {
 	}
 	if oi.viol == nil {
 		// the instrumented build must reproduce the reference exactly; if the reference is
-		// itself consistent, a difference here can only be an instrumenter bug
-		if inst.Crash != "" || inst.Hung >= 0 {
-			oi.viol = check(inst, "plain")
-		}
-		for i, id := range inst.IDs {
-			if oi.viol != nil {
-				break
+		// itself consistent, a difference here can only be history dependence that shows
+		// in that build only (decided by a replay) or an instrumenter bug
+		if r := check(inst, "plain"); r != nil {
+			// (a) the call alone, exactly as the instrumented pass ran it (its own one-task
+			// run): reproduces when the result depends on the schedule of goroutines the
+			// library starts itself; (b) the whole pass prefix: history that shows only in
+			// the instrumented build
+			var cands []*proto.Record
+			if len(r.Run.Tasks) == 1 && len(r.Run.Tasks[0].Ops) > 1 {
+				one := cloneRec(r)
+				ops := one.Run.Tasks[0].Ops
+				one.Run.Tasks[0].Ops = ops[len(ops)-1:]
+				cands = append(cands, one)
 			}
-			if inst.Outcomes[i] != ref[id] {
-				if r := check(inst, "plain"); r != nil {
-					// could also be history dependence that shows only here; let the
-					// replay decide: it is run in the uninstrumented build first
-					r2 := *r
-					r2.Build = "ref"
-					if res, err := replayOnce(b, &r2, "instcheck"); err == nil && res.Record != nil {
-						oi.viol = &r2
-						break
+			cands = append(cands, r)
+			for _, c := range cands {
+				res, err := replayOnce(b, c, "instcheck")
+				if err == nil && res.Record != nil {
+					c.Violations = res.Record.Violations
+					if len(b.rep.Rewrites) > 0 {
+						c.Note = "the uninstrumented library (goroutines scheduled by the Go runtime) and the simulated schedule give different results for the same single call"
 					}
+					oi.viol = c
+					break
 				}
-				c := oi.corpus.Calls[id]
-				fatal("instrumented build disagrees with the uninstrumented reference on %s(%q,%q): %s vs %s (instrumenter bug?)",
-					c.Fn, c.Expr, c.List, inst.Outcomes[i], ref[id])
+			}
+			if oi.viol == nil {
+				fatal("instrumented build disagrees with the uninstrumented reference (instrumenter bug?): %s", r.Violations[0].Detail+" expected "+r.Violations[0].Expected+" observed "+r.Violations[0].Observed)
 			}
 		}
 	}
+	oi.iso = len(iso)
 	steps := make([]int64, n)
 	for i, id := range inst.IDs {
 		if i < len(inst.Steps) {
